@@ -33,3 +33,44 @@ func TestSimDump(t *testing.T) {
 		fmt.Printf("[%s] %s\n", v.Kind, v.Message)
 	}
 }
+
+func TestSimDumpCluster(t *testing.T) {
+	p := os.Getenv("VERIF_DUMP")
+	if p == "" {
+		t.Skip("VERIF_DUMP not set")
+	}
+	b, _ := os.ReadFile(p)
+	var rf struct {
+		Scenario sim.ClusterScenario `json:"scenario"`
+	}
+	if err := json.Unmarshal(b, &rf); err != nil {
+		t.Fatal(err)
+	}
+	sc := &rf.Scenario
+	tr := sim.RunCluster(t, sc)
+	fmt.Println(sc.Config.YAML())
+	fmt.Printf("n=%d positions=%v fates=%+v pp=%d opts=%+v tail=%d\nlabel sets %v\n", sc.N, sc.Positions, sc.Fates, sc.PushPull, sc.Opts, sc.Tail, sc.LabelSets)
+	for i, st := range sc.Steps {
+		fmt.Printf("%s STEP %d %s inst=%d", tr.StepAt[i].Format("15:04:05.000"), i, st.Op, st.Inst)
+		for _, a := range st.Alerts {
+			e := "timeout"
+			if a.End != nil {
+				e = fmt.Sprintf("end%+d", *a.End)
+			}
+			fmt.Printf(" [%v %s]", sc.LabelSets[a.LS], e)
+		}
+		if st.Behave != nil {
+			fmt.Printf(" %+v", *st.Behave)
+		}
+		fmt.Printf(" %s a=%d b=%d up=%v\n", st.Restart, st.A, st.B, st.Up)
+	}
+	for _, a := range tr.Attempts {
+		fmt.Printf("%s   inst %d attempt %s/%d gk=%s flush=%d tick=%s done=%s %s %q %v entry=%+v\n", a.T.Format("15:04:05.000"), a.Inst, a.Receiver, a.Idx, a.GroupKey, a.FlushID, a.Tick.Format("15:04:05.000"), a.Done.Format("15:04:05.000"), a.Outcome, a.Reason, a.Alerts, a.Entry)
+	}
+	fmt.Println("end", tr.End.Format("15:04:05.000"), tr.Net)
+	vs, st := sim.JudgeCluster(sc, tr)
+	fmt.Printf("stats %+v\n", st)
+	for _, v := range vs {
+		fmt.Printf("[%s] %s\n", v.Kind, v.Message)
+	}
+}
